@@ -6,6 +6,7 @@ package ergo
 
 import (
 	"bytes"
+	"crypto/rand"
 	"encoding/json"
 	"io"
 	"os"
@@ -32,6 +33,9 @@ type zzWorldT struct {
 var zzW *zzWorldT
 
 func zzWorldCleanup() {
+	if zzSavedRand != nil {
+		rand.Reader = zzSavedRand
+	}
 	if zzW == nil {
 		return
 	}
@@ -230,6 +234,25 @@ func zzLastJSON() interface{} {
 		last = v
 	}
 	return last
+}
+
+type zzZeroReader struct{}
+
+func (zzZeroReader) Read(p []byte) (int, error) {
+	for i := range p {
+		p[i] = 0
+	}
+	return len(p), nil
+}
+
+var zzSavedRand io.Reader
+
+// zzPinRand makes crypto/rand deliver zero bytes: shortID() == "AAAAAA".
+func zzPinRand() {
+	if zzSavedRand == nil {
+		zzSavedRand = rand.Reader
+	}
+	rand.Reader = zzZeroReader{}
 }
 
 // zzLockStats cannot be observed natively; obligations on it are structural (flag constants).
